@@ -382,7 +382,7 @@ func init() {
 	register(&CheckDef{
 		ID:    "C06",
 		Title: "Merge preserves every key's value and actually reclaims the garbage",
-		Reach: []string{"done", "merge-done", "merged-record-checked", "fewer-files-out", "batch-committed", "second-generation", "many-files"},
+		Reach: []string{"done", "merge-done", "merged-record-checked", "fewer-files-out", "batch-committed", "second-generation", "many-files", "adopted-under-other-configuration"},
 		Jobs: func(tier string) []JobSpec {
 			var js []JobSpec
 			add := func(name string, params map[string]int64) {
@@ -395,6 +395,7 @@ func init() {
 				add("batch-k2", merge(base, p("k", 2, "ops", opPut|opBatch, "bmax", 2)))
 				add("btree-mmap-k2", merge(base, p("k", 2, "ops", opPut|opDelete, "index", 1, "io", 1, "post", 1)))
 				add("second-generation-k2", merge(base, p("premerge", 2, "k", 2, "ops", opPut|opDelete, "vlens", 1)))
+				add("adopted-under-other-configuration-k2", merge(base, p("k", 2, "ops", opPut|opDelete, "vlens", 1, "post", 1, "r_io", 2, "r_index", 2, "r_shards", 3, "r_dfs_lo", 20, "r_dfs_hi", 60)))
 				add("skiplist-s2-k2", merge(base, p("k", 2, "ops", opPut|opDelete, "index", 2, "shards", 2, "post", 1)))
 				add("twelve-files-k1", merge(base, p("fill", 12, "k", 1, "ops", opPut|opDelete, "vlens", 1, "dfs_lo", 20, "dfs_hi", 20, "post", 1)))
 				add("cfgsweep-k2", merge(base, p("cfgsweep", 2, "k", 2, "ops", opPut|opDelete, "vlens", 1, "dfs_lo", 40, "dfs_hi", 40, "post", 1)))
@@ -405,6 +406,8 @@ func init() {
 				add("two-merges-k3", merge(base, p("k", 3, "ops", opPut|opDelete|opMerge|opRestart, "post", 1)))
 				add("skiplist-mmap-k3", merge(base, p("k", 3, "ops", opPut|opDelete, "index", 2, "io", 1, "post", 1)))
 				add("second-generation-k3-post", merge(base, p("premerge", 2, "k", 3, "ops", opPut|opDelete, "post", 1)))
+				add("adopted-under-other-configuration-k3", merge(base, p("k", 3, "ops", opPut|opDelete, "post", 1, "r_io", 2, "r_index", 2, "r_shards", 3, "r_dfs_lo", 20, "r_dfs_hi", 60)))
+				add("mmap-merge-adopted-by-std-btree-k3", merge(base, p("k", 3, "ops", opPut|opDelete, "io", 1, "post", 1, "r_io", 1, "r_index", 1, "r_shards", 2)))
 			}
 			js = append(js, JobSpec{Name: "witness", Harness: "root", Func: "verifHarnessC06", Params: merge(base, p("k", 1, "ops", opPut, "witness", 1)), Scale: scaleDF(32), Witness: true})
 			return js
